@@ -86,6 +86,10 @@ PURE_INTRINSIC_PREFIXES = ("core::core_arch::x86::bmi2::", "core::core_arch::x86
                            "core::cmp::max", "core::cmp::min")
 
 
+import re as _re
+INT_ORD_CMP = _re.compile(r"^(std|core)::cmp::impls::<impl (std|core)::cmp::Ord for [ui](8|16|32|64|128|size)>::cmp$")
+
+
 def pure_external(name):
     if name in PURE_EXTERNALS: return True
     if name.startswith("core::num::<impl ") or name.startswith("std::num::<impl "):
@@ -988,6 +992,12 @@ class Engine:
                 outs.append((tg, ns))
             return outs
         forced = self.assume_int(d) if self.assume_int else None
+        cmp3 = d[1][2] if d[0] == 'discr' and d[1][0] == 'call' and d[1][1] == 'Ord::cmp' else None
+        def with_cmp(facts, v):
+            # Ordering::{Less = -1, Equal = 0, Greater = 1}; switch values are unsigned bit patterns
+            if cmp3 is None or v is None: return facts
+            op = 'eq' if v == 0 else ('gt' if v == 1 else 'lt')
+            return facts | {('b', ('op', op, 'bool', cmp3[0], cmp3[1]), True)}
         known = None
         for f in st.facts:
             if f[0] == 'eqc' and f[1] == d and f[3]: known = f[2]
@@ -996,11 +1006,15 @@ class Engine:
         for v, tg in targets:
             if known is not None and v != known: continue
             if v in excluded: continue
-            ns = st.copy(); ns.facts = ns.facts | {('eqc', d, v, True)}
+            ns = st.copy(); ns.facts = with_cmp(ns.facts | {('eqc', d, v, True)}, v)
             outs.append((tg, ns))
         if known is None or all(v != known for v, _ in targets):
             ns = st.copy()
             ns.facts = ns.facts | {('eqc', d, v, False) for v, _ in targets}
+            if cmp3 is not None:
+                taken = {(0 if v == 0 else (1 if v == 1 else -1)) for v, _ in targets} | {(0 if v == 0 else (1 if v == 1 else -1)) for v in excluded}
+                rest = [x for x in (-1, 0, 1) if x not in taken]
+                if len(rest) == 1: ns.facts = with_cmp(ns.facts, rest[0] if rest[0] >= 0 else 255)
             outs.append((t["otherwise"], ns))
         return outs
 
@@ -1059,6 +1073,33 @@ class Engine:
             else: v = ('deref', a)
             d = self.discr_of(v, 'isize')
             ret = d
+        if ret is None and name and name.startswith("<std::vec::Vec<") and name.endswith("as std::iter::Extend<T>>::extend") and len(args) == 2:
+            # `vec.extend(iter.map(closure))`: the closure body is run once on a generic element and what it
+            # returns is recorded as a `push` made at this site (rules that read the pushes of a loop
+            # see the same thing whether the loop is written `for .. { vec.push(f(x)) }` or as an adaptor)
+            mp = next((e_ for e_ in self.events.values() if e_.ret == args[1] and e_.callee == "std::iter::Iterator::map" and len(e_.args) == 2), None)
+            if mp is not None and mp.args[1][0] == 'agg' and str(mp.args[1][1]).startswith('closure:'):
+                cpath = mp.args[1][1][len('closure:'):]
+                cb = self.crate.body(cpath)
+                if cb is not None and cb.arg_count == 2 and stack.count(cpath) == 0:
+                    elem = ('sym', ('elem', site))
+                    if cb.local_ty(1)["k"] == "ref":
+                        envp = ('tmp', ('closure-env', site)); st.heap[envp] = mp.args[1]; a0 = ('ref_t', envp)
+                    else:
+                        a0 = mp.args[1]
+                    sub = self.run_body(cb, [a0, elem], st, site, stack + (cpath,))
+                    if sub.returns:
+                        st = sub.state
+                        psite = fk + ((body.path, ('extend', bb)),)
+                        pev = Event(psite, "std::vec::Vec::<T, A>::push", [args[0], sub.ret], sub.facts, t["at"], False)
+                        pev.ret = UNIT; pev.argvals = [None, None]
+                        self.events[psite] = pev
+        if ret is None and name and INT_ORD_CMP.match(name) and len(args) == 2 and name not in self.opaque:
+            # `a.cmp(&b)` on primitive integers: a pure three-way comparison of the two pointees; the
+            # switch on its discriminant gives the same facts as the chain `a < b` / `a > b` / else
+            vals = [ev.argvals[i] if args[i][0] == 'ref' else (self.read_cur(st, ('term', args[i][1])) if args[i][0] == 'ref_t' else None) for i in range(2)]
+            if all(v is not None for v in vals):
+                ret = ('call', 'Ord::cmp', tuple(vals))
         if ret is None and name and cbody is not None and name not in self.opaque and stack.count(name) <= self.max_recursion \
                 and len(stack) < self.max_depth and (self.inline_pred is None or self.inline_pred(name, len(stack))):
             sub = self.run_body(cbody, cargs, st, site, stack + (name,))
